@@ -217,6 +217,76 @@ def exhaustive(tier):
             for order in ("A-B-edit", "A-edit-B", "A-edit-A2"):
                 for repeat in (1, 3):
                     yield {"mode": "same-document", "fmt": fmt, "route": route, "order": order, "repeat": repeat}
+    for kind in ("list", "typed-list", "any-list", "dict", "typed-dict", "any-dict"):
+        for size in (0, 2):
+            for place in ("root", "nested", "configtype", "list-item"):
+                yield {"mode": "shared-default", "kind": kind, "size": size, "place": place}
+
+
+def _shared_default_case(case, R):
+    """A constant mutable default on every container field kind: in-place edits through one configuration are seen neither
+    through another configuration (built before or after) nor in the schema's declared default."""
+    import copy
+    cc = sandbox._state["cc"]
+    kind, size, place = case["kind"], case["size"], case["place"]
+    is_list = kind.endswith("list")
+    declared = [10, 20, 30][:size] if is_list else dict([("a", 1), ("b", 2), ("c", 3)][:size])
+    literal = copy.deepcopy(declared)
+    field = {"list": lambda: cc.ListField(default=literal), "typed-list": lambda: cc.ListField(cc.IntField(), default=literal),
+             "any-list": lambda: cc.ListField(cc.AnyField(), default=literal), "dict": lambda: cc.DictField(default=literal),
+             "typed-dict": lambda: cc.DictField(cc.StringField(), cc.IntField(), default=literal), "any-dict": lambda: cc.DictField(cc.AnyField(), cc.AnyField(), default=literal)}[kind]()
+    R.label("shared-default", "shared-default:" + kind)
+    R.nontrivial = True
+    schema = cc.Schema()
+    if place == "root":
+        schema.f = field
+        owner = lambda cfg: cfg
+    elif place == "nested":
+        schema.a.b.f = field
+        owner = lambda cfg: cfg.a.b
+    elif place == "configtype":
+        sub = cc.Schema()
+        sub.f = field
+        schema.t = cc.make_type(sub, "SharedDefaultT", module=__name__)
+        owner = lambda cfg: cfg.t
+    else:
+        item = cc.Schema()
+        item.f = field
+        schema.rows = cc.ListField(item)
+        owner = lambda cfg: cfg.rows[0]
+
+    def build():
+        cfg = schema()
+        if place == "list-item":
+            cfg.rows = [{}]
+        return cfg
+
+    def view(cfg):
+        v = owner(cfg).f
+        return None if v is None else (list(v) if is_list else dict(v))
+    b = build()
+    a = build()
+    for step in ("fresh", "after-reset"):
+        if step == "after-reset":
+            cc.reset_value(owner(a), "f")
+        v = owner(a).f
+        try:
+            if is_list:
+                v.append(99)
+                v += [98]
+            else:
+                v["zz"] = 99
+                v.update(yy=98) if kind != "typed-dict" else v.update({"yy": 98})
+        except Exception:
+            return
+        c = build()
+        for who, cfg in (("built earlier", b), ("built later", c)):
+            got = view(cfg)
+            R.check(got == declared, "isolated", "shared-default:%s:%s" % (kind, step),
+                    lambda: "%s default %r (%s, %s): A's value was edited in place; a configuration %s shows %r" % (kind, declared, place, step, who, got))
+        dflt = field.default
+        R.check(dflt is None or (list(dflt) if is_list else dict(dflt)) == declared, "schema-const", "shared-default:" + kind,
+                lambda: "the field's declared default became %r (declared %r)" % (dflt, declared))
 
 
 def _same_document_case(case, R):
@@ -302,6 +372,8 @@ def _same_document_case(case, R):
 def run_case(case, R):
     if case.get("mode") == "same-document":
         return _same_document_case(case, R)
+    if case.get("mode") == "shared-default":
+        return _shared_default_case(case, R)
     cc = sandbox._state["cc"]
     spec = case["spec"]
     with sandbox.CaseDir() as d:
